@@ -118,3 +118,11 @@ def draw_origin(rng, size, zero_ok=True):
     if zero_ok and rng.random() < 0.3:
         return np.zeros(3)
     return np.array([rng.uniform(-3, 3) * size for _ in range(3)])
+
+
+def snap_small(V):
+    """Box zeroes vector components below 1e-9 of the largest one (documented clean-up in the vects setter).  Cells are
+    generated outside that band: components below 1e-7 of the largest become exact zeros."""
+    V = np.array(V, dtype=float)
+    V[np.abs(V) < 1e-7 * float(np.abs(V).max())] = 0.0
+    return V
